@@ -132,7 +132,9 @@ def gmres( LinOp, b, x0, N, max_iterations, threshold):
         # print('time 2',tme)
         
         tme = datetime.datetime.now()
-        q = q / h
+        breakdown = not h > 0    # the Krylov space is invariant (or exhausted): the solution lies in it, nothing more can be gained
+        if not breakdown:
+            q = q / h
         H[k+1,k] = h
         Q[:,k+1] = q[:,0]
         # Qs.append(q.clone())
@@ -151,11 +153,16 @@ def gmres( LinOp, b, x0, N, max_iterations, threshold):
         error = tn.abs(beta[k+1]) / b_norm
         err.append(error)
         
-        if error <= threshold:
+        if error <= threshold or breakdown:
             converged = True
             break
-    y = tn.linalg.solve(H[:k+1,:k+1],tn.reshape(beta[:k+1],[-1,1]))
-    x = x0 + Q[:,:k+1] @ y     
+    m = k+1
+    if breakdown and not tn.abs(H[k,k]) > 0:
+        m = k    # the last direction added nothing (zero column): solve in the space built so far
+    if m == 0:
+        return x0, True, 0
+    y = tn.linalg.solve(H[:m,:m],tn.reshape(beta[:m],[-1,1]))
+    x = x0 + Q[:,:m] @ y     
     # for i in range(k+1):
     #   x = x0+Qs[i]*y[i]
     return x, converged, k
@@ -183,6 +190,8 @@ def apply_givens_rotation(h, cs, sn, k):
 def givens_rotation(v1,v2):
    
     den = np.sqrt(v1**2+v2**2)
+    if not den > 0:
+        return 1.0, 0.0
     return v1/den, v2/den
 
 
